@@ -41,8 +41,8 @@ Proof. destruct r as [[v|]|m|]; reflexivity. Qed.
 
 Theorem recover_directive_cases r :
   match r with
-  | UReturn (Some v) => recover_directive r = Ok v
-  | UReturn None | UPanic _ => is_err (recover_directive r) = true
+  | UReturn x => recover_directive r = Ok x
+  | UPanic _ => is_err (recover_directive r) = true
   | UNoReturn => recover_directive r = Diverge
   end.
 Proof. destruct r as [[v|]|m|]; reflexivity. Qed.
@@ -182,6 +182,7 @@ Proof.
   destruct (de_impl de) as [fn nilapply|ap] eqn:Himpl.
   - destruct nilapply; [exact I|].
     destruct (Directives.fn_is fn fn_NoAutoescape); [exact I|].
+    destruct v as [x|]; [|exact I].
     apply nf_bind; [apply nf_value_string|]. intros s.
     apply nf_bind; [apply nf_apply_fn|]. intros s'. exact I.
   - eapply HD; eauto.
@@ -190,7 +191,7 @@ Qed.
 Theorem print_writes_hook_nf mode dirs v : nf (print_writes_hook dir_table mode dirs v).
 Proof.
   unfold print_writes_hook. apply nf_bind; [apply apply_dirs_hook_nf|]. intros [v' esc].
-  apply nf_bind; [apply nf_value_string|]. intros s. exact I.
+  apply nf_bind; [destruct v' as [x|]; [apply nf_value_string | exact I]|]. intros s. exact I.
 Qed.
 End HookDirs.
 
@@ -330,7 +331,7 @@ Proof. vm_compute. split; reflexivity. Qed.
 (* ... and a user directive receives the VALUE (here a list, whose length it prints) *)
 Example user_directive_on_value :
   let ud := {| ud_arities := [0]; ud_cancel := true;
-               ud_apply := fun v _ => match v with VList _ l => UReturn (Some (VInt (Z.of_nat (length l)))) | _ => UPanic (b "not a list") end |} in
+               ud_apply := fun v _ => match v with Some (VList _ l) => UReturn (Some (VInt (Z.of_nat (length l)))) | _ => UPanic (b "not a list") end |} in
   let udirs := fun name => if bstr_eqb name (b "count") then Some ud else None in
   let run n := walk_user {| c_reg := empty_registry; c_ij := None; c_oblig := []; c_msgs := None |} (fun _ => None) udirs 5
                  (NPrint 0 n [NDirective 5 (b "count") []]) (init_state [] 0 [] None None 2) in
